@@ -436,6 +436,33 @@ def main(ctx):
             SPECS[nm] = (arrs, bc)
             if with_rev:
                 STRUCTURAL_EXTRA.append((nm, "r"))
+    # positions outside the canonical longitude range (legitimate input: it is wrapped), redshifts that are
+    # negative by a rounding error, tables holding a column type the text writer rejects: the callee has a reason
+    # to "clean" the value or bails out half-way - neither may touch the caller's array
+    wra = np.array([-10.0, 370.0, 720.5, 359.0])
+    wra2 = np.array([-9.5, 369.0, 0.4, -1.0])
+    ospec("htm.Matcher(ra outside [0,360))", lambda a, b, c, d, maxmatch: htm.Matcher(8, a, b).match(c, d, 2.0, maxmatch=maxmatch),
+          dict(a=wra, b=dec, c=wra2, d=dec2), dict(maxmatch=[0, 1]))
+    ospec("htm.match(ra outside [0,360))", lambda a, b, c, d, maxmatch: hobj.match(a, b, c, d, 2.0, maxmatch=maxmatch),
+          dict(a=wra, b=dec, c=wra2, d=dec2), dict(maxmatch=[0, 1]))
+    ospec("htm.lookup_id(ra outside [0,360))", lambda a, b: hobj.lookup_id(a, b), dict(a=wra, b=dec), dict())
+    ospec("htm.bincount(ra outside [0,360))", lambda a, b, c, d: hobj.bincount(0.1, 5.0, 3, a, b, c, d), dict(a=wra, b=dec, c=wra2, d=dec2), dict())
+    zneg = np.array([-1e-13, 0.2, -0.0, 0.5])
+    zneg2 = np.array([0.5, 0.6, -5e-14, 1.0])
+    for cn, c in cos.items():
+        for nm in ("Dc", "Dm", "Da", "Dl", "sigmacritinv", "Ezinv_integral"):
+            ospec("cosmo.%s.%s(tiny negative z)" % (cn, nm), lambda a, b, _c=c, _nm=nm: getattr(_c, _nm)(a, b), dict(a=zneg, b=zneg2), dict())
+        for nm in ("dV", "distmod", "Ez_inverse"):
+            ospec("cosmo.%s.%s(tiny negative z)" % (cn, nm), lambda a, _c=c, _nm=nm: getattr(_c, _nm)(a), dict(a=zneg), dict())
+    # a table with a column the text writer cannot format: the write raises, the argument must be as before
+    for badt in ("?", "f2", "c16", "U3"):
+        bt = np.zeros(3, dtype=[("a", "<i4"), ("bad", badt), ("x", "<f8")])
+        bt["a"] = [1, 2, 3]
+        bt["x"] = [0.5, 1.5, 2.5]
+        ospec("sfile.write(text, unsupported column %s)" % badt, lambda a, delim, _t=badt: sfile.write(fname_for("bad" + _t.strip("?") + str(ord(delim))), a, delim=delim),
+              dict(a=bt), dict(delim=[",", " "]))
+        ospec("recfile.write(text, unsupported column %s)" % badt, lambda a, delim, _t=badt: recfile.write(fname_for("rbad" + _t.strip("?") + str(ord(delim))), a, delim=delim),
+              dict(a=bt), dict(delim=[","]))
     ospec("htm.intersect-scalars", lambda inclusive: hobj.intersect(10.0, 20.0, 1.0, inclusive=inclusive), dict(), dict(inclusive=BO))
 
     # ---------------------------------------------------------------- runner
